@@ -28,6 +28,7 @@ RULE = ("Enumerated part: for a fixed record list (sizes 0,1,16,4096,65536,"
         "least two records in some direction and (a manipulation fired or a "
         "record was delivered in more than one chunk). Distinct: event-log "
         "digests among non-trivial runs.")
+RULE += (' Transport variants: plain TCP, and one that keeps delivering in-flight data between loseConnection() and connectionLost. Readers: eager, lazy (first read after the peer is done), consumers with expected=N incl. 0; the sender may close in an orderly way after its last record.')
 LEVEL_TEXT = ("Fault enumeration over manipulation points of a fixed stream "
               "plus seeded exploration of streams/chunkings/reader modes. "
               "Oracle: what the reader obtains is always a prefix of the "
@@ -37,7 +38,8 @@ LEVEL_TEXT = ("Fault enumeration over manipulation points of a fixed stream "
               "dropped and every pending read / consumer Deferred has failed.")
 LEVEL_NOTE = ("Real transit.Common/Connection and PyNaCl; TCP simulated. The "
               "adversary knows the framing and sees all bytes but has no key.")
-ASSUMPTIONS = ["simulated TCP transport contract (DESIGN.md 2.3)"]
+ASSUMPTIONS = ["simulated TCP transport contract (DESIGN.md 2.3); a second "
+               "transport variant keeps reading after loseConnection()"]
 COMPONENTS = {"real": ["wormhole.transit (TransitSender/Receiver/Connection)",
                        "PyNaCl SecretBox", "Twisted endpoints"],
               "stub": ["kernel TCP (simulated byte streams)"]}
